@@ -23,6 +23,16 @@ NOTES = {
  'C19': 'reachable object-state closure (BFS over state signatures) x method x size',
  'C20': 'device IR for sm_60 and sm_70 through the PTX interpreter; tables compared with the CPU tables',
 }
+def thorough_summary():
+    import re
+    p = os.path.join(V, 'thorough_last.txt')
+    if not os.path.exists(p): return 'not recorded'
+    out = []
+    for ln in open(p):
+        m = re.search(r'(C\d\d) tier=thorough obligations=(\d+) proved=(\d+) .*?violations=(\d+) inconclusive=(\d+) .*?wall=([\d.]+)s', ln)
+        if m: out.append('%s %s/%s in %.0f s%s' % (m.group(1), m.group(3), m.group(2), float(m.group(6)), '' if (m.group(4) == '0' and m.group(5) == '0') else ' (!)'))
+    return '; '.join(out) if out else 'not recorded'
+
 def main():
     rows = []
     for f in sorted(glob.glob(os.path.join(V, 'evidence', 'C*.json'))):
@@ -37,7 +47,9 @@ def main():
 "Solver s" is the time inside z3/cvc5 summed over worker processes; wall time includes the IR build (cached by content hash of /repo/src),
 symbolic execution and native confirmation runs.  Exact bounds per property are in `coverage.bounds` of each evidence file.
 
-''' % '\n'.join(rows)
+Thorough tier, last full run on the unchanged tree (`./runall.sh thorough`, recorded in `thorough_last.txt`): %s.
+
+''' % ('\n'.join(rows), thorough_summary())
     p = os.path.join(V, 'DESIGN.md'); s = open(p).read()
     i = s.find('### 8.2 '); j = s.find('### 8.3 ')
     assert 0 <= i < j
